@@ -173,7 +173,11 @@ theorem authExchange_same (v : Verdicts) (ao : AuthOracle) (s : St) (mech : Byte
             · rw [f1, f2]
               cases res2 with
               | error code => exact Or.inl ⟨_, _, _, ta, tb, rfl, rfl, ht⟩
-              | ok pass => exact Or.inl ⟨_, _, _, ta, tb, rfl, rfl, ht⟩
+              | ok pass =>
+                simp only
+                by_cases hu : (!utf8 user || !utf8 pass) = true
+                · simp only [hu, if_true]; exact Or.inl ⟨_, _, _, ta, tb, rfl, rfl, ht⟩
+                · simp only [hu, Bool.false_eq_true, if_false]; exact Or.inl ⟨_, _, _, ta, tb, rfl, rfl, ht⟩
             · rw [f1, f2]; exact Or.inr ⟨rfl, rfl⟩
         · rw [e1, e2]; exact Or.inr ⟨rfl, rfl⟩
 
